@@ -65,6 +65,10 @@ func walkChanges(s *sut.SUT, storeID string, page int32) ([]string, error) {
 }
 
 func checkConc(env *fw.Env, c ConcCase) *fw.Failure {
+	if c.Writers == 0 {
+		env.Rec.Discard("replay-file-of-another-test")
+		return nil
+	}
 	s := sut.New()
 	defer s.Close()
 	storeID := s.CreateStore("verif")
